@@ -41,7 +41,11 @@ def main(src, dst):
 
     def request(r):
         row = {'name': f"r{r['value']}", 'delay': r['delay'], 'value': r['value']}
-        if r['missing']:
+        if r.get('permuted'):
+            row = {'value': row['value'], 'name': row['name'], 'delay': row['delay']}     # same features, another column order
+        if r.get('misnamed'):
+            row = {('valve' if k == 'value' else k): v for k, v in row.items()}           # same dtypes, a feature under a wrong name
+        elif r['missing']:
             del row['value']
         encoding = layout.Encoding.parse('foo/bar')[0] if r['badenc'] else json_enc
         return layout.Request(json.dumps([row]).encode(), encoding, accept=[json_enc])
